@@ -5,11 +5,13 @@
 From Coq Require Import Reals ZArith QArith List Bool.
 From Coquelicot Require Import Coquelicot.
 From Verif Require Import Lib.Dyadic Lib.Atan2 Lib.Ival Lib.Vec3 Lib.Mat3 Model.C06_Rot.
-From Verif Require Proofs.C06_Rot.
+From Verif Require Proofs.C06_Rot Proofs.C06_Sound Proofs.C06_More.
 Import ListNotations.
 Open Scope R_scope.
 
 Module P := Verif.Proofs.C06_Rot.
+Module S := Verif.Proofs.C06_Sound.
+Module M := Verif.Proofs.C06_More.
 
 (* R(-a) = R(a)^T *)
 Theorem R_neg_transpose : forall a,
@@ -193,6 +195,98 @@ Theorem check_delta_sound : forall to_trs lat lon d1 d2 d3 out,
                              (V3 (dyR d1) (dyR d2) (dyR d3)))) out.
 Proof. exact P.check_delta_sound. Qed.
 Print Assumptions check_delta_sound.
+
+(* along/cross/radial through the staged environments: verdict 0 = every entry within relative 1e-12 of trs2acr(r, v) over R,
+   verdict 2 (the former quirk) = of its transpose; S.vd a b c is the real vector of three shipped doubles *)
+Theorem check_acr_mat_sound : forall r1 r2 r3 v1 v2 v3 m,
+  (check_acr_mat ([r1; r2; r3], [v1; v2; v3], m) = 0%Z ->
+   Forall2 S.close12 (mat_entries (trs2acr (S.vd r1 r2 r3) (S.vd v1 v2 v3))) m) /\
+  (check_acr_mat ([r1; r2; r3], [v1; v2; v3], m) = 2%Z ->
+   Forall2 S.close12 (mat_entries (acr2trs (S.vd r1 r2 r3) (S.vd v1 v2 v3))) m).
+Proof. exact S.check_acr_mat_sound. Qed.
+Print Assumptions check_acr_mat_sound.
+
+Theorem check_acr_delta_sound : forall to_trs r1 r2 r3 v1 v2 v3 d1 d2 d3 out,
+  check_acr_delta (to_trs, [r1; r2; r3], [v1; v2; v3], [d1; d2; d3], out) = 0%Z ->
+  Forall2 (fun x o => Rabs (x - dyR o) <= Q2R (delta_tol [d1; d2; d3]))
+          (vec_entries (mvec (if to_trs then acr2trs (S.vd r1 r2 r3) (S.vd v1 v2 v3) else trs2acr (S.vd r1 r2 r3) (S.vd v1 v2 v3))
+                             (S.vd d1 d2 d3))) out.
+Proof. exact S.check_acr_delta_sound. Qed.
+Print Assumptions check_acr_delta_sound.
+
+(* verdict 0 of check_normal: S.normal_frame_ok = Up is a unit vector, the position lies on the line through the ellipsoid point
+   with outward normal Up (foot_of_normal) along Up within 1e-9 (a + |h|), on the near side (h >= -a/2); East is a unit vector
+   perpendicular to the axis and to Up with the right sense; North = Up x East; all within 1e-12 *)
+Theorem check_normal_sound : forall a e2 x1 x2 x3 e1 e2' e3 n1 n2 n3 u1 u2 u3,
+  check_normal (a, e2, [x1; x2; x3], [e1; e2'; e3], [n1; n2; n3], [u1; u2; u3]) = 0%Z ->
+  S.normal_frame_ok (dyR a) (dyR e2) (S.vd x1 x2 x3) (S.vd e1 e2' e3) (S.vd n1 n2 n3) (S.vd u1 u2 u3).
+Proof. exact S.check_normal_sound. Qed.
+Print Assumptions check_normal_sound.
+
+(* conversely the true frame satisfies the equations of check_normal exactly: for the geodetic point at height h and Up = normal,
+   X - P(Up) = h Up and the height recovered is h (so the check is not vacuous and h >= -a/2 holds for every h >= -a/2) *)
+Theorem normal_frame_complete : forall a e2 lat lon h,
+  0 < a -> 0 <= e2 < 1 ->
+  S.nf_W a e2 (geodetic_point a e2 lat lon h) (normal lat lon) = vscale h (normal lat lon) /\
+  S.nf_h a e2 (geodetic_point a e2 lat lon h) (normal lat lon) = h.
+Proof. exact M.normal_frame_complete. Qed.
+Print Assumptions normal_frame_complete.
+
+(* verdict 0 of check_azel: S.azel_ok = |az| <= pi, az within 1e-11 rad of `azimuth` modulo a turn or (east, north) along
+   (sin az, cos az) within 1e-12; |el| <= pi/2, el within 1e-11 rad of asin(up projection) or sin el = projection within 1e-12;
+   zd = pi/2 - el within 4 ulp *)
+Theorem check_azel_sound : forall lat lon p1 p2 p3 o1 o2 o3 az el zd,
+  check_azel (lat, lon, [p1; p2; p3], [o1; o2; o3], az, el, zd) = 0%Z ->
+  S.azel_ok (dyR lat) (dyR lon) (S.vd p1 p2 p3) (S.vd o1 o2 o3) (dyR az) (dyR el) (dyR zd).
+Proof. exact S.check_azel_sound. Qed.
+Print Assumptions check_azel_sound.
+
+(* the clip before the arcsine (bc81835) is the identity over R *)
+Theorem elevation_clip_irrelevant : forall lat lon p o,
+  vsub o p <> vzero -> elevation lat lon p o = asin (dot (direction p o) (enu_up lat lon)).
+Proof. exact M.elevation_clip_irrelevant. Qed.
+Print Assumptions elevation_clip_irrelevant.
+
+(* targets straight above / below the position (excluded from az_el_are_angles_in_triad) *)
+Theorem az_el_at_zenith : forall lat lon p o rho,
+  0 < rho -> vsub o p = vscale rho (enu_up lat lon) ->
+  elevation lat lon p o = PI / 2 /\ zenith_distance lat lon p o = 0 /\ azimuth lat lon p o = 0.
+Proof. exact M.az_el_at_zenith. Qed.
+Print Assumptions az_el_at_zenith.
+
+Theorem az_el_at_nadir : forall lat lon p o rho,
+  rho < 0 -> vsub o p = vscale rho (enu_up lat lon) ->
+  elevation lat lon p o = - (PI / 2) /\ zenith_distance lat lon p o = PI /\ azimuth lat lon p o = 0.
+Proof. exact M.az_el_at_nadir. Qed.
+Print Assumptions az_el_at_nadir.
+
+(* the block-diagonal 6x6 matrix np.block([[M, 0], [0, M]]) of a rotation M is a proper rotation of R^6: it preserves the
+   scalar product, its determinant (Laplace expansion, M.det_l; equal to mdet on 3x3: det_l_rows3) is +1, and it acts as `block` *)
+Theorem det_l_rows3 : forall A, M.det_l (M.rows3 A) = mdet A.
+Proof. exact M.det_l_rows3. Qed.
+Print Assumptions det_l_rows3.
+
+Theorem posvel_block_is_rotation : forall A,
+  rotation A ->
+  (forall x y, M.dot6 (block A x) (block A y) = M.dot6 x y) /\
+  M.det_l (M.block6 A) = 1 /\
+  (forall pv, M.mvec_l (M.block6 A) (M.to6 pv) = M.to6 (block A pv)).
+Proof. exact M.posvel_block_is_rotation. Qed.
+Print Assumptions posvel_block_is_rotation.
+
+Theorem enu_block_is_rotation : forall lat lon,
+  (forall x y, M.dot6 (block (trs2enu lat lon) x) (block (trs2enu lat lon) y) = M.dot6 x y) /\ M.det_l (M.block6 (trs2enu lat lon)) = 1 /\
+  (forall x y, M.dot6 (block (enu2trs lat lon) x) (block (enu2trs lat lon) y) = M.dot6 x y) /\ M.det_l (M.block6 (enu2trs lat lon)) = 1.
+Proof. exact M.enu_block_is_rotation. Qed.
+Print Assumptions enu_block_is_rotation.
+
+Theorem acr_block_roundtrip : forall r v pv,
+  cross r v <> vzero ->
+  block (acr2trs r v) (block (trs2acr r v) pv) = pv /\ block (trs2acr r v) (block (acr2trs r v) pv) = pv /\
+  (forall x y, M.dot6 (block (trs2acr r v) x) (block (trs2acr r v) y) = M.dot6 x y) /\ M.det_l (M.block6 (trs2acr r v)) = 1 /\
+  (forall x y, M.dot6 (block (acr2trs r v) x) (block (acr2trs r v) y) = M.dot6 x y) /\ M.det_l (M.block6 (acr2trs r v)) = 1.
+Proof. exact M.acr_block_roundtrip. Qed.
+Print Assumptions acr_block_roundtrip.
 
 (* quirk c06_acr_1d_transposed (triad stacked as columns) is not the specification *)
 Theorem acr_1d_transposed_refuted :
